@@ -24,7 +24,9 @@
 (* The specification carries ana, cursor (nominal state, exactly as        *)
 (* Session.tla defines it) and memo - memo persists across sessions, so a  *)
 (* call must agree with the same call in every other session of the run.   *)
-(* A record is consumed iff no clause fails; `bad` names the failing one.  *)
+(* Every record is consumed; a call is ACCEPTED iff no clause of Why fails, *)
+(* otherwise it is recorded in `rej` with the name of the failing clause    *)
+(* and the rest of its session is skipped (its state is unknown).          *)
 (***************************************************************************)
 EXTENDS Session, Json, IOUtils
 
@@ -49,8 +51,7 @@ FirstBad(c, d) ==      \* first change of the delta that the step does not own (
   IN  IF B = {} THEN 0 ELSE d[CHOOSE j \in B : \A k \in B : j <= k][1]
 
 Why(rec) ==
-  IF ~(rec.e \in 1..NE /\ rec.s \in Targets /\ rec.v \in 0..(Reg[rec.e].nv - 1) /\ Applicable(rec.e, rec.s, Wd))
-  THEN "NotAnEntryPoint"
+  IF ~IsCall(Mk(rec.e, rec.s, rec.v), Wd) THEN "NotAnEntryPoint"
   ELSE
   LET c  == Mk(rec.e, rec.s, rec.v)
       k  == Key(c, ana, cursor)
